@@ -24,7 +24,8 @@ import (
 	"gogenverif/sim/core"
 )
 
-const verifDir = "/verif"
+// verifDir is where the harness lives (the directory ./check is in): /verif, or a snapshot of it.
+var verifDir = "/verif"
 
 var repoDir = "/repo"
 
@@ -69,6 +70,9 @@ var goEnv = []string{"GOFLAGS=-mod=mod", "GOPROXY=off", "GOSUMDB=off", "GOTOOLCH
 func main() {
 	if len(os.Args) < 2 {
 		fail2("usage: verifcheck <property> [--tier quick|thorough] [--replay file] [--seed n]")
+	}
+	if wd, err := os.Getwd(); err == nil {
+		verifDir = wd
 	}
 	id := os.Args[1]
 	if id == "selftest-determinism" {
